@@ -5,7 +5,8 @@
     accepted under exactly the valuations under which pattern j of the second
     is; in particular compiled alone or together makes no difference. *)
 From PM Require Import Model.Prelude Model.Domain Model.Automaton
-  Model.Traversal Model.DomString Model.DomMatrix Cert.LabCheck Cert.WinCheck Proofs.AbsEquiv Proofs.StringExact Proofs.MatrixExact Properties.C03.
+  Model.Traversal Model.DomString Model.DomMatrix Cert.LabCheck Cert.WinCheck Proofs.AbsEquiv Proofs.StringExact Proofs.MatrixExact Properties.C03
+  Model.ManyGlue Proofs.ManyGlueProofs.
 
 Theorem c06_pattern_independent_acceptance :
   forall (K V M H P : Type) (D : DomOps K V M H P), DomEq D ->
@@ -47,6 +48,58 @@ Theorem c06_matrix_runs_agree :
     ((exists a b, In (N.of_nat i, MBound s a b) ms1) <-> (exists a b, In (N.of_nat j, MBound s a b) ms2)).
 Proof. exact m_certified_agree. Qed.
 
+(** ** identifiers, fallback modes, the pattern table (Model/ManyGlue.v: the part of
+    ManyMatcher::try_from_patterns_with_det_heuristic around the builder; [convert]
+    is Pattern::try_to_constraint_vec)
+
+    Skip: construction never fails on account of a conversion; exactly the
+    convertible patterns are handed to the builder, each under its position in the
+    input vector (no renumbering), once. *)
+Theorem c06_skip_ids_are_input_positions :
+  forall (PT CS E : Type) (convert : PT -> E + CS) (pats : list PT),
+    exists l, compile convert FSkip pats = inr l
+      /\ (forall id cs, In (id, cs) l <->
+            exists p, nth_error pats (N.to_nat id) = Some p /\ convert p = inr cs)
+      /\ NoDup (map fst l).
+Proof. exact @compile_skip. Qed.
+
+(** Fail: the conversion error of the first pattern that does not convert; when
+    all convert, the same as Skip. *)
+Theorem c06_fail_returns_first_error :
+  forall (PT CS E : Type) (convert : PT -> E + CS) (pats : list PT),
+    match compile convert FFail pats with
+    | inr l => (forall p, In p pats -> exists cs, convert p = inr cs) /\ compile convert FSkip pats = inr l
+    | inl e => exists l1 p l2, pats = l1 ++ p :: l2 /\ convert p = inl e
+                               /\ forall q, In q l1 -> exists cs, convert q = inr cs
+    end.
+Proof. exact @compile_fail. Qed.
+
+(** get_pattern answers exactly for the compiled patterns, with the pattern at
+    that input position; n_patterns counts them. *)
+Theorem c06_get_pattern_reflects_compiled :
+  forall (PT CS E : Type) (convert : PT -> E + CS) (pats : list PT) l,
+    compile convert FSkip pats = inr l ->
+    forall id, get_pattern (pattern_table pats (map fst l)) id =
+               match nth_error pats (N.to_nat id) with
+               | Some p => match convert p with inr _ => Some p | inl _ => None end
+               | None => None
+               end.
+Proof. exact @skip_table. Qed.
+
+Theorem c06_n_patterns_counts_compiled :
+  forall (PT CS E : Type) (convert : PT -> E + CS) (pats : list PT) l,
+    compile convert FSkip pats = inr l -> n_patterns (pattern_table pats (map fst l)) = length l.
+Proof. exact @skip_n_patterns. Qed.
+
+Example c06_example_skip :
+  compile (fun p : N => if N.eqb p 7 then inl tt else inr [p]) FSkip [1; 7; 3]%N = inr [(0, [1]); (2, [3])]%N
+  /\ compile (fun p : N => if N.eqb p 7 then inl tt else inr [p]) FFail [1; 7; 3]%N = inl tt.
+Proof. split; reflexivity. Qed.
+
 Print Assumptions c06_pattern_independent_acceptance.
+Print Assumptions c06_skip_ids_are_input_positions.
+Print Assumptions c06_fail_returns_first_error.
+Print Assumptions c06_get_pattern_reflects_compiled.
+Print Assumptions c06_n_patterns_counts_compiled.
 Print Assumptions c06_matrix_runs_agree.
 Print Assumptions c06_string_runs_agree.
